@@ -49,7 +49,7 @@ func loadPosExprs() (map[string]posExprs, error) {
 }
 
 func propC19(o *propOpts) *propResult {
-	res := newResult("cases: (1) the two generators of the repository run on the working tree and compared byte for byte with ast/pos.go and ast/walk_internal.go; (2) for every node of every parsed corpus input and token-level mutation: poslang.EvalPos of the documented pos/end expression vs the compiled Pos()/End(); non-trivial = node whose documented expression has a choice, an addition or a slice access (value differs from a plain field read); distinct by (kind, pos, end, input)")
+	res := newResult("cases: (1) the two generators of the repository run on the working tree and compared byte for byte with ast/pos.go and ast/walk_internal.go; (2) for every node of every parsed corpus input and token-level mutation: poslang.EvalPos of the documented pos/end expression vs the compiled Pos()/End(); non-trivial = node whose documented expression has a choice, an addition or a slice access (value differs from a plain field read); (3) for every returned tree: the events of the generated Walk vs the exported node-typed fields in declaration order, by reflection; distinct by (kind, pos, end, input)")
 	// (1) byte-for-byte
 	scratch := filepath.Join(os.TempDir(), fmt.Sprintf("mf-gen-%d", os.Getpid()))
 	os.MkdirAll(scratch, 0o755)
@@ -113,6 +113,14 @@ func propC19(o *propOpts) *propResult {
 		for _, root := range r.nodes {
 			for _, n := range allNodes(root) {
 				checkNode(s, n)
+			}
+			// (3) the traversal clause of C19 on a concrete tree: Walk enumerates exactly the exported node-typed fields in declaration
+			// order (expectation by reflection, independent of walk_internal.go) — the replay for a generator that drops a field
+			if isNilNode(root) {
+				continue
+			}
+			if _, d := c17Check(root, 0); d != "" {
+				res.fail("walk:"+kindName(root), s, e.name, "generated traversal differs from the node-typed fields in declaration order: "+d)
 			}
 		}
 	}
